@@ -8,6 +8,13 @@ pub fn main() {
     }
     let engine = argv[1].as_str();
     let args = Args::parse(&argv[2..]);
+    // debugging aid: HDV_TRACE=<file> writes the library's and hyper's trace events there
+    if let Ok(path) = std::env::var("HDV_TRACE") {
+        if let Ok(f) = std::fs::File::create(&path) {
+            let filter = std::env::var("HDV_TRACE_FILTER").unwrap_or_else(|_| "hyperdriver=trace,hyper=trace".to_string());
+            let _ = tracing_subscriber::fmt().with_env_filter(tracing_subscriber::EnvFilter::new(filter)).with_writer(std::sync::Mutex::new(f)).with_ansi(false).with_thread_ids(true).try_init();
+        }
+    }
     let t0 = std::time::Instant::now();
     let report: Report = match engine {
         "addrsort" => crate::addrsort::run(&args),
